@@ -180,7 +180,7 @@ PROPS["C01"] = {
     "technique": "Lean 4 proof (client model sound w.r.t. independent authenticity spec; replay => hash break) + process-level differential with forged responses",
 }
 PROPS["C03"] = {
-    "claimed": False, "module": "Rough.Props.C03", "need_bins": True,
+    "claimed": True, "module": "Rough.Props.C03", "need_bins": True,
     "theorems": ["Rough.Props.C03.C03_request_wellformed", "Rough.Props.C03.C03_accept", "Rough.Props.C03.C03_time"],
     "streams": [{"args": ["client-honest"], "shards_quick": 12, "shards_thorough": 16}, {"args": ["client-real"], "shards_quick": 1, "shards_thorough": 1}],
     "ops": ["client", "clientreal"], "trivial": r"^$", "min_nontrivial": 100,
@@ -193,7 +193,7 @@ PROPS["C03"] = {
 }
 
 PROPS["C14"] = {
-    "claimed": False, "module": "Rough.Props.C14",
+    "claimed": True, "module": "Rough.Props.C14",
     "theorems": ["Rough.Props.C14.C14_round_trip", "Rough.Props.C14.C14_parse_layout", "Rough.Props.C14.C14_parse_injective",
                  "Rough.Props.C14.C14_tamper", "Rough.Props.C14.C14_wrong_key", "Rough.Props.C14.C14_layout"],
     "streams": [{"args": ["envelope"], "shards_quick": 8, "shards_thorough": 16}],
@@ -219,3 +219,47 @@ PROPS["C16"] = {
     "level_text": "Lean theorems over a model of both loaders and the validator: a started server's effective integer setting is the written one for every key/value/source, out-of-range documented keys are refused, effective settings always lie in the documented ranges, file and environment steps agree on decimal values, unknown keys and missing required settings are refused; tied to the code by a probe process per case on a boundary grid through both sources",
     "technique": "Lean 4 proof (loader/validator model: effective = written or refused) + probe-process differential on a boundary grid",
 }
+
+PROC_TB = ["real roughenough-server binary built from /repo's working tree, run as a process on loopback with free ports; observables: /proc/<pid>/task/*/comm, UDP replies (distinct per-worker certificates), TCP health probes, exit status, captured stdout+stderr",
+           "Linux kernel behaviour (SO_REUSEPORT distribution of datagrams and connections, signal delivery, scheduling) is exercised, not modelled", TB_CRYPTO]
+PROPS["C15"] = {
+    "claimed": False, "module": "Rough.Props.C15", "need_bins": True,
+    "theorems": ["Rough.Props.C15.C15_all_start", "Rough.Props.C15.C15_unfixed_witness", "Rough.Props.C15.C15_valid_preconditions"],
+    "streams": [{"args": ["startup"], "shards_quick": 6, "shards_thorough": 16, "timeout": 1500}],
+    "ops": ["startup"], "trivial": r"^$", "min_nontrivial": 8,
+    "rule": "the real server binary is started for each configuration: the repository's own example.cfg verbatim (ports substituted only if 8686/8000 are taken), a pairwise cover (quick, 11 configurations) / the grid num_workers 1..16 x health_check_port absent/present x 6 combinations of batch_size {1,2,63,64}, fault_percentage {0,1,50}, status_interval {1,10,600}, client_stats off/on+directory, file/ENV source (thorough, 192 configurations). Per configuration: thread names worker-0..worker-(n-1) in /proc before and after the probes, requests from fresh source ports until n distinct classic online keys answered, 20 sequential + 3x4 parallel TCP health connections expecting the exact HTTP response, UDP service afterwards, no 'panicked' in the output, SIGTERM -> exit 0. every configuration is a distinct non-trivial case",
+    "trusted_base": PROC_TB,
+    "assumptions": ["PARTIAL: the theorem covers the start-up resource logic (mutex, TCP bind rule, every start order) and the validator-implies-preconditions step; thread timing, accept-queue behaviour and memory use are only sampled by the process runs"],
+    "design_ref": "5/C15",
+    "level_text": "PARTIAL. Lean theorems: with SO_REUSEPORT every worker starts for every worker count and every mutex acquisition order, validator acceptance implies Server::new's unwrap preconditions, and the unrepaired bind leaves exactly one worker (witness). Runtime part by process-level correspondence: live worker threads, per-worker certificates, sequential and parallel health probes, exit status on the documented option grid incl. example.cfg",
+    "technique": "Lean 4 proof (start-up resource model, all orders) + process-level correspondence on the configuration grid",
+}
+PROPS["C18"] = {
+    "claimed": False, "module": "Rough.Props.C18", "need_bins": True,
+    "theorems": ["Rough.Props.C18.C18_workers"],
+    "streams": [{"args": ["workers"], "shards_quick": 6, "shards_thorough": 16, "timeout": 1500}],
+    "ops": ["mw"], "trivial": r"^$", "min_nontrivial": 4,
+    "rule": "real server binary with num_workers in {2,16} (quick) / {1,2,4,8,16} (thorough), rounds of 1..64 concurrent closed-loop harness clients (own sockets, mixed classic/IETF, 8 or 12 requests each, no retransmission, 1.5 s timeout), 3 (quick) / 30 (thorough) seeded rounds per worker count; every reply verified by the Lean spec verifier for its own request under the seed's long-term key; lost, invalid, duplicate (extra) replies, live worker threads and panic output counted. every round is a distinct case",
+    "trusted_base": PROC_TB,
+    "assumptions": ["PARTIAL: 'every schedule' is reduced to 'every assignment of datagrams to workers and every chunking' (the theorem's quantifier); that the kernel delivers each datagram to exactly one socket and that crossbeam/mio are data-race free is trusted (safe Rust)"],
+    "design_ref": "5/C18",
+    "level_text": "PARTIAL. Lean theorem: n servers created from one seed, each processing an arbitrary list of passes (any kernel distribution, any chunking): no worker fails, each sends exactly one reference reply per accepted request to its source, and every reply verifies under the single long-term key and is no longer than its request. Runtime part: concurrent-client rounds against the real multi-worker binary judged by the Lean verifier",
+    "technique": "Lean 4 proof (per-worker refinement, quantified over assignments) + concurrent process-level validation",
+}
+PROPS["C19"] = {
+    "claimed": False, "module": "Rough.Props.C19", "need_bins": True,
+    "theorems": ["Rough.Props.C19.C19_call_bounded", "Rough.Props.C19.C19_worker_exits", "Rough.Props.C19.C19_reporter_exits",
+                 "Rough.Props.C19.C19_flood_starves_unfixed", "Rough.Props.C19.C19_replies_complete"],
+    "streams": [{"args": ["shutdown"], "shards_quick": 6, "shards_thorough": 16, "timeout": 1500}],
+    "ops": ["sd"], "trivial": r"^$", "min_nontrivial": 10,
+    "rule": "real server binary, num_workers {1,4,16} x client_stats off/on x {SIGINT, SIGTERM} x regime {idle, closed-loop load from 4 harness threads, open-loop flood from 6 threads that keep the receive queue non-empty} x signal delay swept over 4 (quick) / 12 (thorough) values 0..300 ms: exit status, time to exit, panic output, and the last responses received before exit verified by the Lean spec verifier. L1 = exit 0 within 5 s, no panic, responses complete and valid. every run is a distinct case",
+    "trusted_base": PROC_TB,
+    "assumptions": ["PARTIAL: the theorem is about the polling-loop logic under an adversarial arrival process; the ctrlc signal thread, wall-clock latency and exit codes are only measured"],
+    "design_ref": "5/C19",
+    "level_text": "PARTIAL. Lean theorems: every process_events call ends after <= 16 batches for every arrival process, so a worker returns right after the first call following the flag and the reporter at its next check; the unrepaired loop never returns under a flood (witness); exit happens only between calls so emitted responses are complete (C02). Runtime part: signal sweeps on the real binary in idle/load/flood regimes",
+    "technique": "Lean 4 proof (bounded-call polling loop vs adversarial arrivals) + process-level signal sweeps",
+}
+# process-level streams added to C03 and C20
+PROPS["C20"]["streams"] = PROPS["C20"]["streams"] + [{"args": ["procleak"], "shards_quick": 4, "shards_thorough": 8, "timeout": 600}]
+PROPS["C20"]["ops"] = ["srv", "procleak"]
+PROPS["C20"]["need_bins"] = True
